@@ -26,6 +26,7 @@ import (
 	"os"
 	"runtime"
 	"sort"
+	"strings"
 	"sync"
 	"sync/atomic"
 	"time"
@@ -61,6 +62,12 @@ type c19Cfg struct {
 	// then two garbage collections, then the real Join, then everybody calls Connect
 	FailParty int
 	FailKind  int
+	// mode "door": an ordinary run through a less-travelled door: AddrForm 1 = addresses given
+	// as ":port", 2 = "localhost:port" (0 = "127.0.0.1:port"); Repeat = the mesh is formed,
+	// closed, and formed again on the same addresses; Addrs = addresses chosen by the caller
+	AddrForm int
+	Repeat   bool
+	Addrs    []string
 }
 
 var c19FailKinds = []string{"", "busy-address", "leader-not-listening", "closed-before-connect", "stray-silent-connection", "stray-garbage-connection"}
@@ -257,11 +264,24 @@ func c19Close(nw *p2p.Network) {
 // c19Run runs one configuration on the real code.
 func c19Run(cfg c19Cfg, rng *RNG) ([]c19Party, error) {
 	n, k := cfg.N, cfg.K
-	addrs, err := c19FreePorts(n + 1) // addrs[n]: the address of a failed attempt
-	if err != nil {
-		return nil, err
+	addrs := append([]string(nil), cfg.Addrs...)
+	var err error
+	if addrs == nil {
+		addrs, err = c19FreePorts(n + 1) // addrs[n]: the address of a failed attempt
+		if err != nil {
+			return nil, err
+		}
 	}
-	conc := cfg.Mode == "late" || cfg.Mode == "slow" || cfg.Mode == "failjoin"
+	for i := range addrs {
+		port := addrs[i][strings.LastIndex(addrs[i], ":"):]
+		switch cfg.AddrForm {
+		case 1:
+			addrs[i] = port
+		case 2:
+			addrs[i] = "localhost" + port
+		}
+	}
+	conc := cfg.Mode == "late" || cfg.Mode == "slow" || cfg.Mode == "failjoin" || cfg.Mode == "door"
 
 	var lastEvent atomic.Int64
 	touch := func() { lastEvent.Store(time.Now().UnixNano()) }
@@ -294,7 +314,7 @@ func c19Run(cfg c19Cfg, rng *RNG) ([]c19Party, error) {
 			time.Sleep(d)
 			touch()
 		})
-	case "late", "slow", "failjoin":
+	case "late", "slow", "failjoin", "door":
 		// runs concurrently with other runs: leaves the global hook alone
 	default:
 		p2p.SetVerifYield(func(site string) { touch() })
@@ -314,6 +334,9 @@ func c19Run(cfg c19Cfg, rng *RNG) ([]c19Party, error) {
 	}
 	nws[0], err = p2p.Create(addrs[0], n, k)
 	if err != nil {
+		if cfg.Mode == "door" {
+			return c19SetupFailed(n, 0, "Create("+addrs[0]+"): "+err.Error()), nil
+		}
 		return nil, err
 	}
 	for _, j := range cfg.Order {
@@ -368,6 +391,9 @@ func c19Run(cfg c19Cfg, rng *RNG) ([]c19Party, error) {
 				if nw != nil {
 					c19Close(nw)
 				}
+			}
+			if cfg.Mode == "door" {
+				return c19SetupFailed(n, j, "Join("+leaderAddr+", "+addrs[j]+"): "+err.Error()), nil
 			}
 			return nil, err
 		}
@@ -883,103 +909,8 @@ func runC19(c *Ctx) error {
 		cfgs = append(cfgs, c19Cfg{N: n, K: k, Order: c19Perm(c.rng, n, x%3), Mode: mode})
 	}
 
-	report := func(cfg c19Cfg, res []c19Party) {
-		key := fmt.Sprintf("%d/%d/%v/%s/%d/%d/%d", cfg.N, cfg.K, cfg.Order, cfg.Mode, cfg.Freeze, cfg.Late, cfg.StaggerMs)
-		c.Eval(key, cfg.N >= 3 || cfg.K >= 2)
-		c.Hist(fmt.Sprintf("n=%d", cfg.N))
-		c.Hist(fmt.Sprintf("k=%d", cfg.K))
-		c.Hist("mode=" + cfg.Mode)
-
-		symptoms, f11 := c19Oracle(cfg, res)
-		seenEarly := map[string]bool{}
-		for _, p := range res {
-			for _, e := range p.EarlyLost {
-				key := fmt.Sprintf("c19:early-data-lost:party%d->%d:conn%d", e.From, e.To, e.C)
-				if seenEarly[key] {
-					continue
-				}
-				seenEarly[key] = true
-				c.Fail(key, fmt.Sprintf("n=%d k=%d join order %v mode %s: the mesh formed, but the message party %d sent on Peers[%d].Conns[%d] immediately after its own Connect returned is not the first thing party %d receives on Peers[%d].Conns[%d] (got %v)",
-					cfg.N, cfg.K, cfg.Order, cfg.Mode, e.From, e.To, e.C, e.To, e.From, e.C, e.Got),
-					map[string]interface{}{"cfg": cfg, "lost": e})
-			}
-		}
-		if cfg.StreamRecs > 0 {
-			c.Hist("post-connect-stream")
-			smu := map[string]bool{}
-			for _, p := range res {
-				for _, sf := range p.Stream {
-					key := fmt.Sprintf("c19:post-connect-stream:%d<->%d#%d:corrupted-or-duplicated", sf.I, sf.J, sf.C)
-					if smu[key] {
-						continue
-					}
-					smu[key] = true
-					c.Fail(key, fmt.Sprintf("n=%d k=%d: the mesh formed; %d tagged, numbered records were streamed over every connection in both directions (receivers 200 ms late); party %d, Peers[%d].Conns[%d], record %d: %s",
-						cfg.N, cfg.K, cfg.StreamRecs, sf.I, sf.J, sf.C, sf.Record, sf.What),
-						map[string]interface{}{"cfg": cfg, "failure": sf})
-				}
-			}
-		}
-		input := L(I(cfg.N), I(cfg.K), Ints(cfg.Order), I(cfg.Freeze))
-		obs := c19ObsSX(res)
-		c.Sample(map[string]interface{}{"cfg": cfg, "symptoms": symptoms})
-		if cfg.Mode == "freeze" && len(res) > 0 && res[0].HookNotReached {
-			symptoms = append(symptoms, fmt.Sprintf("hook call %d of yield(acceptConn:before-register) was never reached", cfg.Freeze))
-		}
-		if len(symptoms) == 0 {
-			c.Hist("clean")
-			c.Case(input, obs)
-			return
-		}
-		sym := c19Symptom(symptoms)
-		c.Hist("failing:" + cfg.Mode + ":" + sym)
-		var fkey string
-		switch {
-		case cfg.Mode == "late":
-			who := fmt.Sprintf("party%d", cfg.Late)
-			if cfg.Late == 0 {
-				who = "leader"
-			}
-			fkey = "c19:late-start:" + who + ":" + sym
-		case cfg.Mode == "slow":
-			fkey = fmt.Sprintf("c19:slow-leader-link:party%d:%s", cfg.SlowParty, sym)
-		case cfg.Mode == "failjoin":
-			fkey = fmt.Sprintf("c19:failed-join-then-retry:%s:%s", c19FailKinds[cfg.FailKind], sym)
-		case f11:
-			fkey = "c19:acceptConn:need-before-addPeer:" + cfg.Mode + ":" + sym
-		default:
-			fkey = "c19:" + cfg.Mode + ":" + sym
-		}
-		what := fmt.Sprintf("n=%d k=%d join order %v mode %s freeze %d: %v", cfg.N, cfg.K, cfg.Order, cfg.Mode, cfg.Freeze, symptoms)
-		if cfg.Mode == "late" {
-			what = fmt.Sprintf("n=%d k=%d join order %v: all parties joined, party %d called Connect %d ms after the others: %v",
-				cfg.N, cfg.K, cfg.Order, cfg.Late, cfg.StaggerMs, symptoms)
-		}
-		if cfg.Mode == "slow" {
-			what = fmt.Sprintf("n=%d k=%d join order %v: data from the leader reaches party %d %d ms late (TCP forwarder on its link to the leader), all parties start Connect together: %v",
-				cfg.N, cfg.K, cfg.Order, cfg.SlowParty, cfg.SlowMs, symptoms)
-		}
-		if cfg.Mode == "failjoin" {
-			what = fmt.Sprintf("n=%d k=%d join order %v: failed attempt (%s) for party %d, two garbage collections, then its successful Join on a free address, then all parties Connect: %v",
-				cfg.N, cfg.K, cfg.Order, c19FailKinds[cfg.FailKind], cfg.FailParty, symptoms)
-		}
-		c.Fail(fkey, what, map[string]interface{}{"cfg": cfg, "observed": obs.String(), "symptoms": symptoms})
-		if cfg.Mode == "freeze" && !res[0].HookNotReached {
-			// the schedule is known: the model must predict the same failure
-			c.Case(input, obs)
-		}
-	}
-	runOne := func(cfg c19Cfg, rng *RNG) ([]c19Party, error) {
-		var res []c19Party
-		var err error
-		for try := 0; try < 3; try++ { // a port taken by a concurrent run: try again
-			res, err = c19Run(cfg, rng)
-			if err == nil || !containsStr(err.Error(), "address already in use") {
-				break
-			}
-		}
-		return res, err
-	}
+	report := func(cfg c19Cfg, res []c19Party) { c19Report(c, cfg, res) }
+	runOne := c19RunOne
 
 	// late-start scenarios ("every order and timing in which the parties start"): they
 	// run concurrently with each other and with the free/delays runs below (never with the
@@ -1014,6 +945,7 @@ func runC19(c *Ctx) error {
 		lates = append(lates, c19Cfg{N: nn, K: 1 + x%2, Order: c19Perm(c.rng, nn, x%3), Mode: "failjoin", Late: -1,
 			FailParty: 1 + c.rng.Intn(nn-1), FailKind: fk})
 	}
+	lates = append(lates, c19DoorCfgs(c)...)
 	type lateRes struct {
 		res []c19Party
 		err error
@@ -1024,7 +956,15 @@ func runC19(c *Ctx) error {
 		lateRngs[i] = c.rng.Fork()
 	}
 	var lateWG sync.WaitGroup
+	// other runtime environments and separate processes: started now, collected at the end
+	var children []*c19Child
+	procRes := make(chan func(), 4)
+	nProcs := 2
 	startLate := func() {
+		// (after the hook-driven runs, whose verdicts rest on a quiescence window)
+		children = c19StartChildren(c)
+		go c19Processes(c, 3, 2, "GOMAXPROCS=1", procRes)
+		go c19Processes(c, 4, 1, "", procRes)
 		for i := range lates {
 			lateWG.Add(1)
 			go func(i int) {
@@ -1056,6 +996,137 @@ func runC19(c *Ctx) error {
 		}
 		report(cfg, lateOut[i].res)
 	}
+	c19ArgDoors(c)
+	c19MergeChildren(c, children)
+	for i := 0; i < nProcs; i++ {
+		(<-procRes)()
+	}
 	c19CheckTiming(c)
 	return nil
+}
+
+func c19Report(c *Ctx, cfg c19Cfg, res []c19Party) {
+	key := fmt.Sprintf("%d/%d/%v/%s/%d/%d/%d", cfg.N, cfg.K, cfg.Order, cfg.Mode, cfg.Freeze, cfg.Late, cfg.StaggerMs)
+	c.Eval(key, cfg.N >= 3 || cfg.K >= 2)
+	c.Hist(fmt.Sprintf("n=%d", cfg.N))
+	c.Hist(fmt.Sprintf("k=%d", cfg.K))
+	c.Hist("mode=" + cfg.Mode)
+
+	symptoms, f11 := c19Oracle(cfg, res)
+	seenEarly := map[string]bool{}
+	for _, p := range res {
+		for _, e := range p.EarlyLost {
+			key := fmt.Sprintf("c19:early-data-lost:party%d->%d:conn%d", e.From, e.To, e.C)
+			if seenEarly[key] {
+				continue
+			}
+			seenEarly[key] = true
+			c.Fail(key, fmt.Sprintf("n=%d k=%d join order %v mode %s: the mesh formed, but the message party %d sent on Peers[%d].Conns[%d] immediately after its own Connect returned is not the first thing party %d receives on Peers[%d].Conns[%d] (got %v)",
+				cfg.N, cfg.K, cfg.Order, cfg.Mode, e.From, e.To, e.C, e.To, e.From, e.C, e.Got),
+				map[string]interface{}{"cfg": cfg, "lost": e})
+		}
+	}
+	if cfg.StreamRecs > 0 {
+		c.Hist("post-connect-stream")
+		smu := map[string]bool{}
+		for _, p := range res {
+			for _, sf := range p.Stream {
+				key := fmt.Sprintf("c19:post-connect-stream:%d<->%d#%d:corrupted-or-duplicated", sf.I, sf.J, sf.C)
+				if smu[key] {
+					continue
+				}
+				smu[key] = true
+				c.Fail(key, fmt.Sprintf("n=%d k=%d: the mesh formed; %d tagged, numbered records were streamed over every connection in both directions (receivers 200 ms late); party %d, Peers[%d].Conns[%d], record %d: %s",
+					cfg.N, cfg.K, cfg.StreamRecs, sf.I, sf.J, sf.C, sf.Record, sf.What),
+					map[string]interface{}{"cfg": cfg, "failure": sf})
+			}
+		}
+	}
+	input := L(I(cfg.N), I(cfg.K), Ints(cfg.Order), I(cfg.Freeze))
+	obs := c19ObsSX(res)
+	c.Sample(map[string]interface{}{"cfg": cfg, "symptoms": symptoms})
+	if cfg.Mode == "freeze" && len(res) > 0 && res[0].HookNotReached {
+		symptoms = append(symptoms, fmt.Sprintf("hook call %d of yield(acceptConn:before-register) was never reached", cfg.Freeze))
+	}
+	if len(symptoms) == 0 {
+		c.Hist("clean")
+		c.Case(input, obs)
+		return
+	}
+	sym := c19Symptom(symptoms)
+	c.Hist("failing:" + cfg.Mode + ":" + sym)
+	var fkey string
+	switch {
+	case cfg.Mode == "late":
+		who := fmt.Sprintf("party%d", cfg.Late)
+		if cfg.Late == 0 {
+			who = "leader"
+		}
+		fkey = "c19:late-start:" + who + ":" + sym
+	case cfg.Mode == "slow":
+		fkey = fmt.Sprintf("c19:slow-leader-link:party%d:%s", cfg.SlowParty, sym)
+	case cfg.Mode == "failjoin":
+		fkey = fmt.Sprintf("c19:failed-join-then-retry:%s:%s", c19FailKinds[cfg.FailKind], sym)
+	case f11:
+		fkey = "c19:acceptConn:need-before-addPeer:" + cfg.Mode + ":" + sym
+	default:
+		fkey = "c19:" + cfg.Mode + ":" + sym
+	}
+	what := fmt.Sprintf("n=%d k=%d join order %v mode %s freeze %d: %v", cfg.N, cfg.K, cfg.Order, cfg.Mode, cfg.Freeze, symptoms)
+	if cfg.Mode == "late" {
+		what = fmt.Sprintf("n=%d k=%d join order %v: all parties joined, party %d called Connect %d ms after the others: %v",
+			cfg.N, cfg.K, cfg.Order, cfg.Late, cfg.StaggerMs, symptoms)
+	}
+	if cfg.Mode == "slow" {
+		what = fmt.Sprintf("n=%d k=%d join order %v: data from the leader reaches party %d %d ms late (TCP forwarder on its link to the leader), all parties start Connect together: %v",
+			cfg.N, cfg.K, cfg.Order, cfg.SlowParty, cfg.SlowMs, symptoms)
+	}
+	if cfg.Mode == "failjoin" {
+		what = fmt.Sprintf("n=%d k=%d join order %v: failed attempt (%s) for party %d, two garbage collections, then its successful Join on a free address, then all parties Connect: %v",
+			cfg.N, cfg.K, cfg.Order, c19FailKinds[cfg.FailKind], cfg.FailParty, symptoms)
+	}
+	c.Fail(fkey, what, map[string]interface{}{"cfg": cfg, "observed": obs.String(), "symptoms": symptoms})
+	if cfg.Mode == "freeze" && !res[0].HookNotReached {
+		// the schedule is known: the model must predict the same failure
+		c.Case(input, obs)
+	}
+}
+
+func c19RunOne(cfg c19Cfg, rng *RNG) ([]c19Party, error) {
+	var res []c19Party
+	var err error
+	if cfg.Repeat && cfg.Addrs == nil {
+		// a second mesh on the same addresses after the first one has been closed
+		addrs, aerr := c19FreePorts(cfg.N + 1)
+		if aerr != nil {
+			return nil, aerr
+		}
+		cfg.Addrs = addrs
+		first, ferr := c19Run(cfg, rng)
+		if ferr != nil {
+			return nil, ferr
+		}
+		if sym, _ := c19Oracle(cfg, first); len(sym) > 0 {
+			return first, nil
+		}
+	}
+	for try := 0; try < 3; try++ { // a port taken by a concurrent run: try again
+		res, err = c19Run(cfg, rng)
+		if err == nil || cfg.Addrs != nil || !containsStr(err.Error(), "address already in use") {
+			break
+		}
+	}
+	return res, err
+}
+
+// c19SetupFailed: in a scenario whose inputs the API must accept, Create/Join of party j
+// failed: an oracle failure (Connect status "error" for j, the others never get anywhere).
+func c19SetupFailed(n, j int, what string) []c19Party {
+	res := make([]c19Party, n)
+	for i := range res {
+		res[i].Status = 2
+		res[i].Fin = &c19Table{Rows: map[int][]bool{}, Lens: map[int]int{}}
+	}
+	res[j].Status, res[j].Err = 1, what
+	return res
 }
